@@ -32,7 +32,8 @@ def _dir():
 def build_scorer(rule_dir, case):
     from lib_scorer.pcfg_password_scorer import PCFGPasswordScorer
     from lib_scorer.grammar_io import load_grammar
-    sc = PCFGPasswordScorer(limit=0)
+    # the cut-off below which a string is classified 'other' (password_scorer.py --limit): it must not change the probability reported
+    sc = PCFGPasswordScorer(limit=case.get('limit', 0))
     with core.quiet():
         if not guard(case, load_grammar, sc, rule_dir):
             raise Violation('scorer_load_failed', 'the scorer could not load a ruleset the trainer just wrote', case)
@@ -159,6 +160,15 @@ def prop(case, rec):
         again = guard(case, sc.parse, s)
         if again != first[s]:
             raise Violation('impure', f'string {s!r}: first scored {first[s]}, after scoring other strings {again}', dict(case, extra=[s]))
+    # ... nor on the classification cut-off the scorer was built with
+    if case.get('limit'):
+        sc0 = build_scorer(out, dict(case, limit=0))
+        rec.cls('scorer_with_cut_off')
+        for s in cands:
+            p0 = guard(case, sc0.parse, s)[2]
+            if p0 != first[s][2]:
+                raise Violation('depends_on_cut_off', f'string {s!r}: probability {first[s][2]!r} from a scorer with --limit {case["limit"]}, {p0!r} with --limit 0',
+                                dict(case, extra=[s]))
     # ... and not on what the scorer object was asked before: a second scorer over the same ruleset, asked in reverse order
     sc2 = build_scorer(out, case)
     if sc2.multiword_detector.lookup:
@@ -215,7 +225,7 @@ def cases(draw):
                           ''.join(x.capitalize() for x in parts[i:]) + tail]
             extra += [''.join(parts) + tail, ''.join(reversed(parts)) + tail, ''.join(x.capitalize() for x in parts) + tail]
     return {'entries': entries, 'encoding': enc, 'coverage': draw(st.sampled_from([0.6, 0.3, 1])), 'ngram': draw(st.sampled_from([2, 3, 4])),
-            'extra': [e for e in extra if valid_password(e)], 'drop_structs': drop}
+            'extra': [e for e in extra if valid_password(e)], 'drop_structs': drop, 'limit': draw(st.sampled_from([0, 0, 0, 1e-9, 1e-3, 0.05, 0.5]))}
 
 
 def run_main(rec, seed, shard, nshards, tier):
@@ -261,6 +271,8 @@ def prop_cli(case, rec):
     try:
         # started from the tool's folder, from somewhere else, or from a folder that holds ANOTHER ruleset under the same name
         opts = ['--rule', rule, '--input', inp, '--output', outp] if case.get('long_options') else ['-r', rule, '-i', inp, '-o', outp]
+        if case.get('limit'):
+            opts += ['--limit' if case.get('long_options') else '-l', repr(case['limit'])]
         p = cli.run(root, 'password_scorer.py', opts, ctx, timeout=600, text=True)
     except subprocess.TimeoutExpired:
         rec.skip('cli_timeout_inconclusive')
